@@ -25,7 +25,7 @@
 From Coq Require Import List NArith ZArith Bool.
 From Coq Require String.
 Import String.StringSyntax.
-From Sccache Require Import Base.Sx Model.DistStatus Model.DistFallback Model.DistArgs Model.DistHistory.
+From Sccache Require Import Base.Sx Model.DistStatus Model.DistFallback Model.DistArgs Model.DistHistory Model.DistRustInputs.
 Import ListNotations.
 Local Open Scope N_scope.
 Local Open Scope string_scope.
@@ -217,6 +217,26 @@ Definition run_toolchain (x : sx) : sx :=
   | _ => err "bad toolchain case"
   end.
 
+(* ---- leg rustinputs: ( ( ( SPELL ty ... ) ... ) SIBLING KIND ) -> uncacheable | complete | trimmed | missing
+   KIND 0: rlib with member rust.metadata.bin, 1: real rustc rlib (lib.rmeta), 2: archive without a metadata member ---- *)
+Definition dec_cty (x : sx) : cty :=
+  if is_sym "lib" x then TLib else if is_sym "rlib" x then TRlib else if is_sym "staticlib" x then TStaticlib
+  else if is_sym "bin" x then TBin else if is_sym "dylib" x then TDylib else if is_sym "cdylib" x then TCdylib
+  else TProcMacro.
+
+Definition run_rustinputs (x : sx) : sx :=
+  match x with
+  | SL [SL opts; sib; kind] =>
+      let os := map (fun o => map dec_cty (tl (get_L o))) opts in
+      match packaged os (get_bool sib) (negb (N.eqb (get_N kind) 2)) with
+      | None => sym "uncacheable"
+      | Some Complete => sym "complete"
+      | Some Trimmed => sym "trimmed"
+      | Some Missing => sym "missing"
+      end
+  | _ => err "bad rustinputs case"
+  end.
+
 (* ---- leg args ---- *)
 Definition dec_lang (x : sx) : option language :=
   if is_sym "C" x then Some LC else if is_sym "Cxx" x then Some LCxx
@@ -264,6 +284,7 @@ Definition dispatch (leg : list N) (x : sx) : sx :=
   else if bytes_eqb leg (bs "fallback_orig") then run_fallback false x
   else if bytes_eqb leg (bs "request") then run_request x
   else if bytes_eqb leg (bs "toolchain") then run_toolchain x
+  else if bytes_eqb leg (bs "rustinputs") then run_rustinputs x
   else if bytes_eqb leg (bs "args") then run_args true x
   else if bytes_eqb leg (bs "args_orig") then run_args false x
   else err "unknown leg".
